@@ -97,9 +97,11 @@ def dispatch_map(core, pf):
                     continue
                 binds = H.pat_binds(a["pat"])
                 body = H.final_expr(a["body"])
-                if H.kind(body) == "Call" and (body.get("def") or "") in pf and body["def"] != name:
+                if H.kind(body) in ("Call", "MethodCall") and (body.get("def") or "") in pf and body["def"] != name:
                     callee = pf[body["def"]]
                     params = [H.pat_binds(p)[0] if H.pat_binds(p) else None for p in callee["params"]]
+                    if H.kind(body) == "MethodCall":
+                        params = params[1:]   # `self.call(func, args)`: the receiver carries the layout state, not a part of the node
                     ren = {}
                     for p, arg in zip(params, body["args"]):
                         l = H.path_local(arg)
@@ -116,9 +118,11 @@ def dispatch_map(core, pf):
                     continue
                 binds = H.pat_binds(c["pat"])
                 for x in H.walk(n["then"]):
-                    if H.kind(x) == "Call" and (x.get("def") or "") in pf and x["def"] != name and x["def"] not in out:
+                    if H.kind(x) in ("Call", "MethodCall") and (x.get("def") or "") in pf and x["def"] != name and x["def"] not in out:
                         callee = pf[x["def"]]
                         params = [H.pat_binds(p)[0] if H.pat_binds(p) else None for p in callee["params"]]
+                        if H.kind(x) == "MethodCall":
+                            params = params[1:]
                         ren = {p: H.path_local(arg) for p, arg in zip(params, x["args"]) if H.path_local(arg) in binds}
                         if ren:
                             out[x["def"]] = (vs[0], ren)
@@ -242,7 +246,7 @@ def arms_of(core, I_, pf):
                 if len(vs) != 1 or vs[0] not in SKEL:
                     continue
                 body = H.final_expr(a["body"])
-                if H.kind(body) == "Call" and (body.get("def") or "") in dm and dm[body["def"]][0] == vs[0]:
+                if H.kind(body) in ("Call", "MethodCall") and (body.get("def") or "") in dm and dm[body["def"]][0] == vs[0]:
                     continue  # forwarded to a helper, analysed there
                 alts = I_.arm(a, m["scrut"], env)
                 yield name, vs[0], alts, {}, H.loc(a["body"])
